@@ -932,29 +932,47 @@ func (b *bsearch) returnsIn(region *ssa.BasicBlock) bool {
 }
 
 // found-returns: (value, true)
-func (b *bsearch) foundReturns() (found, notFound []*ssa.Return) {
-	eachInstr(b.f, func(ins ssa.Instruction) {
-		ret, ok := ins.(*ssa.Return)
-		if !ok || len(ret.Results) != 2 {
-			return
+// bret: one way a search answers - a return instruction, or, when the function has a single return of joined values
+// (named results, a result variable), one way into that return with the values and facts of that way.
+type bret struct {
+	ret   *ssa.Return
+	val   ssa.Value       // the first result on this way
+	blk   *ssa.BasicBlock // the block this way comes from (the return's own block for a plain return)
+	to    *ssa.BasicBlock // for a way into a joined return: the block the edge blk -> to leads to; nil otherwise
+	facts []Cmp
+	pos   token.Pos
+}
+
+func (b *bsearch) foundReturns() (found, notFound []bret) {
+	for _, c := range returnCases(b.f) {
+		if len(c.Vals) != 2 || c.Ret.Block() == b.f.Recover {
+			continue
 		}
-		k, isC := retOperand(ret, 1).(*ssa.Const)
+		k, isC := c.Vals[1].(*ssa.Const)
 		if !isC || k.Value == nil {
-			return
+			continue
+		}
+		br := bret{ret: c.Ret, val: c.Vals[0], blk: c.At.Block(), facts: c.Facts, pos: instrPos(c.At)}
+		br.to = c.To
+		if !br.pos.IsValid() {
+			br.pos = instrPos(c.Ret)
 		}
 		if k.Value.String() == "true" {
-			found = append(found, ret)
+			found = append(found, br)
 		} else {
-			notFound = append(notFound, ret)
+			notFound = append(notFound, br)
 		}
-	})
+	}
 	return
 }
 
 // resultIndex: the index of the element a found-return hands out (whole element for the block search, its DataHandle
 // for the index search).
 func (b *bsearch) resultIndex(ret *ssa.Return) (ssa.Value, bool) {
-	v := retOperand(ret, 0)
+	return b.resultIndexV(retOperand(ret, 0))
+}
+
+func (b *bsearch) resultIndexV(v ssa.Value) (ssa.Value, bool) {
 	if b.idxResult {
 		return stripValue(v), true
 	}
@@ -1021,19 +1039,19 @@ func (b *bsearch) result(header, body, pt, pf *ssa.BasicBlock, low *ssa.Phi, mid
 		return
 	}
 	for _, ret := range found {
-		idx, ok := b.resultIndex(ret)
+		idx, ok := b.resultIndexV(ret.val)
 		if !ok {
-			b.viol("result element", instrPos(ret), "a found-return does not hand out an element of "+b.cont.Name()+" (for the index search: its DataHandle)")
+			b.viol("result element", ret.pos, "a found-return does not hand out an element of "+b.cont.Name()+" (for the index search: its DataHandle)")
 			continue
 		}
 		switch {
-		case inRegion(pt, ret.Block()) && idx == mid:
+		case inRegion(pt, ret.blk) && idx == mid:
 			// (B) early return of the middle element: needs "no smaller element is at or above the key"
-			b.hold("result element", instrPos(ret), "the middle element, on the branch where it is at or above the key")
+			b.hold("result element", ret.pos, "the middle element, on the branch where it is at or above the key")
 			b.neighbourCheck(ret, pt, mid)
-		case inRegion(pf, ret.Block()):
-			b.viol("result element", instrPos(ret), "an element is returned on the branch where the middle element is below the key")
-		case !inRegion(body, ret.Block()):
+		case inRegion(pf, ret.blk):
+			b.viol("result element", ret.pos, "an element is returned on the branch where the middle element is below the key")
+		case !inRegion(body, ret.blk):
 			// after the loop
 			if ph, isPhi := idx.(*ssa.Phi); isPhi && ph.Block() == header && ph != low {
 				// (A) result variable
@@ -1061,18 +1079,18 @@ func (b *bsearch) result(header, body, pt, pf *ssa.BasicBlock, low *ssa.Phi, mid
 						okR = false
 					}
 				}
-				b.check(okR && setT, "result element", instrPos(ret), "the last middle element that was at or above the key (initially none)",
+				b.check(okR && setT, "result element", ret.pos, "the last middle element that was at or above the key (initially none)",
 					"the result index is not `mid` recorded exactly on the branch where the middle element is at or above the key")
-				facts := factsAt(ret)
+				facts := ret.facts
 				h0, any0 := evalFacts(facts, idx, 0)
 				h5, _ := evalFacts(facts, idx, 5)
 				hm, _ := evalFacts(facts, idx, -1)
-				b.check(any0 && h0 && h5 && !hm, "found exactly when an element was recorded", instrPos(ret), "guarded by result >= 0",
+				b.check(any0 && h0 && h5 && !hm, "found exactly when an element was recorded", ret.pos, "guarded by result >= 0",
 					"the found-return is not guarded by exactly `result index >= 0`: block 0 is treated as not found, or -1 is used as an index")
 			} else if idx == ssa.Value(low) && !closed {
 				// (C) half-open: low after the loop
 				okG := false
-				for _, c := range factsAt(ret) {
+				for _, c := range ret.facts {
 					if c.Y == nil {
 						continue
 					}
@@ -1084,23 +1102,23 @@ func (b *bsearch) result(header, body, pt, pf *ssa.BasicBlock, low *ssa.Phi, mid
 						okG = true
 					}
 				}
-				b.hold("result element", instrPos(ret), "low after the loop")
-				b.check(okG, "found exactly when an element was recorded", instrPos(ret), "guarded by low < len", "the found-return is not guarded by low < len("+b.cont.Name()+")")
+				b.hold("result element", ret.pos, "low after the loop")
+				b.check(okG, "found exactly when an element was recorded", ret.pos, "guarded by low < len", "the found-return is not guarded by low < len("+b.cont.Name()+")")
 			} else {
-				b.viol("result element", instrPos(ret), "the element returned after the loop is neither the recorded middle element nor the final lower bound")
+				b.viol("result element", ret.pos, "the element returned after the loop is neither the recorded middle element nor the final lower bound")
 			}
 		default:
-			b.viol("result element", instrPos(ret), "a found-return inside the loop hands out something other than the middle element")
+			b.viol("result element", ret.pos, "a found-return inside the loop hands out something other than the middle element")
 		}
 	}
 	// not-found answers: after the loop (nothing qualified), or before it only when no element can qualify
 	for _, ret := range notFound {
-		rb := ret.Block()
+		rb := ret.blk
 		switch {
 		case inRegion(body, rb):
-			b.viol("not found only when nothing qualifies", instrPos(ret), "not-found is answered inside the search loop, before the interval is exhausted")
+			b.viol("not found only when nothing qualifies", ret.pos, "not-found is answered inside the search loop, before the interval is exhausted")
 		case header.Dominates(rb):
-			b.hold("not found only when nothing qualifies", instrPos(ret), "after the loop")
+			b.hold("not found only when nothing qualifies", ret.pos, "after the loop")
 		default:
 			// before the loop: every way to this return establishes "empty" or "last element below the key"
 			okAll, n := true, 0
@@ -1133,8 +1151,24 @@ func (b *bsearch) result(header, body, pt, pf *ssa.BasicBlock, low *ssa.Phi, mid
 					}
 				}
 			}
-			walk(rb)
-			b.check(okAll && n > 0, "not found only when nothing qualifies", instrPos(ret), "early exit only for an empty container or when the last element is below the key",
+			if ret.to != nil {
+				seen[ret.to] = true
+				switch last := rb.Instrs[len(rb.Instrs)-1].(type) {
+				case *ssa.If:
+					truth := rb.Succs[0] == ret.to
+					n++
+					if !b.nothingQualifies(canonCond(last.Cond, truth), last.Cond, truth) {
+						okAll = false
+					}
+				case *ssa.Jump:
+					walk(rb)
+				default:
+					okAll = false
+				}
+			} else {
+				walk(rb)
+			}
+			b.check(okAll && n > 0, "not found only when nothing qualifies", ret.pos, "early exit only for an empty container or when the last element is below the key",
 				"not-found is answered before the search on a condition under which an element at or above the key can exist (e.g. `last <= key`): the entry equal to the key at the end of the container is missed")
 		}
 	}
@@ -1154,7 +1188,7 @@ func isLenOf(v ssa.Value, cont *types.Var) bool {
 }
 
 // neighbourCheck: every edge into the early found-return establishes mid == 0 or elem(mid-1) < key.
-func (b *bsearch) neighbourCheck(ret *ssa.Return, pt *ssa.BasicBlock, mid ssa.Value) {
+func (b *bsearch) neighbourCheck(ret bret, pt *ssa.BasicBlock, mid ssa.Value) {
 	// walk back from the return block through unconditional jumps to the conditional edges that lead here
 	okAll, n := true, 0
 	seen := map[*ssa.BasicBlock]bool{}
@@ -1192,8 +1226,25 @@ func (b *bsearch) neighbourCheck(ret *ssa.Return, pt *ssa.BasicBlock, mid ssa.Va
 			}
 		}
 	}
-	walk(ret.Block())
-	b.check(okAll && n > 0, "no smaller element qualifies", instrPos(ret), "every way to this return passes mid == 0 or CompareKeys(elem[mid-1], key) < 0",
+	if ret.to != nil {
+		// a way into a joined return: the edge ret.blk -> ret.to first
+		seen[ret.to] = true
+		switch last := ret.blk.Instrs[len(ret.blk.Instrs)-1].(type) {
+		case *ssa.If:
+			truth := ret.blk.Succs[0] == ret.to
+			n++
+			if ret.blk.Succs[0] == ret.blk.Succs[1] || !b.isNeighbourFact(canonCond(last.Cond, truth), last.Cond, truth, mid) {
+				okAll = false
+			}
+		case *ssa.Jump:
+			walk(ret.blk)
+		default:
+			okAll = false
+		}
+	} else {
+		walk(ret.blk)
+	}
+	b.check(okAll && n > 0, "no smaller element qualifies", ret.pos, "every way to this return passes mid == 0 or CompareKeys(elem[mid-1], key) < 0",
 		"the middle element is returned although an earlier element may also be at or above the key (the neighbour test is missing or different on some way to the return): a later key, or an older version than the newest allowed one, is returned")
 }
 
@@ -1290,14 +1341,14 @@ func (b *bsearch) runSortSearch(call *ssa.Call) {
 		return
 	}
 	for _, ret := range found {
-		ri, ok := b.resultIndex(ret)
+		ri, ok := b.resultIndexV(ret.val)
 		if !ok || ri != ssa.Value(call) {
-			b.viol("result element", instrPos(ret), "the element returned is not the one at the index sort.Search found")
+			b.viol("result element", ret.pos, "the element returned is not the one at the index sort.Search found")
 			continue
 		}
-		b.hold("result element", instrPos(ret), "the element at the index sort.Search found")
+		b.hold("result element", ret.pos, "the element at the index sort.Search found")
 		okG := false
-		for _, c := range factsAt(ret) {
+		for _, c := range ret.facts {
 			if c.Y == nil {
 				continue
 			}
@@ -1309,7 +1360,7 @@ func (b *bsearch) runSortSearch(call *ssa.Call) {
 				okG = true
 			}
 		}
-		b.check(okG, "found exactly when an element was recorded", instrPos(ret), "guarded by idx < len", "the found-return is not guarded by idx < len("+b.cont.Name()+")")
+		b.check(okG, "found exactly when an element was recorded", ret.pos, "guarded by idx < len", "the found-return is not guarded by idx < len("+b.cont.Name()+")")
 	}
 }
 
@@ -1617,6 +1668,34 @@ func runLookupFetch(c *Ctx, r *RuleRun) {
 	if hp == nil {
 		r.Undecided(fn, "handle parameter", "", "not found")
 		return
+	}
+	// the reading may be done by a helper that is handed the handle as it came in: follow the handle down
+	for depth := 0; depth < 2; depth++ {
+		var next *ssa.Function
+		var nextParam *ssa.Parameter
+		sized, n := false, 0
+		eachInstr(fetch, func(ins ssa.Instruction) {
+			switch x := ins.(type) {
+			case *ssa.MakeSlice:
+				sized = true
+			case *ssa.Call:
+				g := x.Call.StaticCallee()
+				if g == nil || !p.InModule(g) || len(g.Blocks) == 0 {
+					return
+				}
+				for i, a := range x.Call.Args {
+					if a == ssa.Value(hp) && i < len(g.Params) {
+						n++
+						next, nextParam = g, g.Params[i]
+					}
+				}
+			}
+		})
+		if sized || n != 1 || p.isExported(next) || len(p.CallersOf(next)) != 1 {
+			break
+		}
+		fetch, hp = next, nextParam
+		fn = p.FnName(fetch)
 	}
 	ofHandle := func(v ssa.Value, fld *types.Var) bool {
 		v = stripValue(v)
